@@ -85,7 +85,9 @@ Definition obs_eqb (a b : sobs) : bool :=
 
 (** validator [id] submitted, for a pair, a POSITIVE rate OUTSIDE the reward band around the median *)
 Definition missed_pair (band : Z) (vs : list pvote) (id : nat) : bool :=
-  existsb (fun v => Nat.eqb (pv_voter v) id && (0 <? pv_rate v) && negb (inside_b band vs (wmedian true vs) v)) vs.
+  let m := wmedian true vs in
+  let s := reward_spread band m vs in
+  existsb (fun v => Nat.eqb (pv_voter v) id && (0 <? pv_rate v) && negb (in_band m s v)) vs.
 
 (** number of quorum pairs on which [id] missed *)
 Definition spec_miss (p : params) (st : state) (id : nat) : Z :=
@@ -93,7 +95,9 @@ Definition spec_miss (p : params) (st : state) (id : nat) : Z :=
 
 (** power of [id]'s in-band votes of one pair *)
 Definition pair_weight (band : Z) (vs : list pvote) (id : nat) : Z :=
-  total_power (filter (fun v => Nat.eqb (pv_voter v) id && inside_b band vs (wmedian true vs) v) vs).
+  let m := wmedian true vs in
+  let s := reward_spread band m vs in
+  total_power (filter (fun v => Nat.eqb (pv_voter v) id && in_band m s v) vs).
 
 (** reward weight: voting power summed over the quorum pairs where the vote was in band *)
 Definition spec_weight (p : params) (st : state) (id : nat) : Z :=
@@ -104,8 +108,45 @@ Definition spec_total_weight (p : params) (st : state) : Z :=
   fold_right Z.add 0 (map (spec_weight p st) (eligible_ids st)).
 
 (** miss counters after a period end *)
+Definition exp_miss_f (f : nat -> Z) (ids : list nat) (mc : list (nat * Z)) : list (nat * Z) :=
+  fold_left (fun mc id => let k := f id in if 0 <? k then bump id k mc else mc) ids mc.
 Definition exp_miss (p : params) (st : state) (mc : list (nat * Z)) : list (nat * Z) :=
-  fold_left (fun mc id => if 0 <? spec_miss p st id then bump id (spec_miss p st id) mc else mc) (eligible_ids st) mc.
+  exp_miss_f (spec_miss p st) (eligible_ids st) mc.
+
+(** the same notions with median and spread of every quorum pair computed once (used by the checker) *)
+Definition pair_ctxs (p : params) (st : state) : list (list pvote * Z * Z) :=
+  map (fun pr => let vs := pair_votes st pr in let m := wmedian true vs in
+                 (vs, m, reward_spread (p_reward_band p) m vs)) (valid_pairs p st).
+Definition ctx_weight (c : list pvote * Z * Z) (id : nat) : Z :=
+  total_power (filter (fun v => Nat.eqb (pv_voter v) id && in_band (snd (fst c)) (snd c) v) (fst (fst c))).
+Definition ctx_missed (c : list pvote * Z * Z) (id : nat) : bool :=
+  existsb (fun v => Nat.eqb (pv_voter v) id && (0 <? pv_rate v) && negb (in_band (snd (fst c)) (snd c) v)) (fst (fst c)).
+Definition weight_of (cs : list (list pvote * Z * Z)) (id : nat) : Z :=
+  fold_right Z.add 0 (map (fun c => ctx_weight c id) cs).
+Definition miss_of (cs : list (list pvote * Z * Z)) (id : nat) : Z :=
+  Z.of_nat (length (filter (fun c => ctx_missed c id) cs)).
+
+Lemma spec_weight_ctx p st id : spec_weight p st id = weight_of (pair_ctxs p st) id.
+Proof. unfold spec_weight, weight_of, pair_ctxs. rewrite map_map. reflexivity. Qed.
+
+Lemma filter_map_length {A B} (h : A -> B) (g : B -> bool) l :
+  length (filter g (map h l)) = length (filter (fun x => g (h x)) l).
+Proof. induction l as [|x l IH]; simpl; [reflexivity|]. destruct (g (h x)); simpl; rewrite IH; reflexivity. Qed.
+
+Lemma spec_miss_ctx p st id : spec_miss p st id = miss_of (pair_ctxs p st) id.
+Proof. unfold spec_miss, miss_of, pair_ctxs. rewrite filter_map_length. reflexivity. Qed.
+
+Lemma exp_miss_f_ext f g ids : (forall id, f id = g id) -> forall mc, exp_miss_f f ids mc = exp_miss_f g ids mc.
+Proof.
+  intro H. unfold exp_miss_f. induction ids as [|i ids IH]; simpl; intro mc; [reflexivity|].
+  rewrite H. apply IH.
+Qed.
+
+Lemma total_weight_ctx p st :
+  spec_total_weight p st = fold_right Z.add 0 (map (weight_of (pair_ctxs p st)) (eligible_ids st)).
+Proof.
+  unfold spec_total_weight. f_equal. apply map_ext. intro id. apply spec_weight_ctx.
+Qed.
 
 (** what is still owed by the module: coins per period * remaining periods *)
 Definition owed (rs : list reward) : list Z :=
@@ -191,8 +232,9 @@ Definition Pb_end (q : oparams) (prev : sobs) (st : state) (svs : list sval) (h 
   let p := op_base q in
   let upd := is_period_last h (p_vote_period p) in
   let win := is_period_last h (op_slash_window q) in
-  let m1 := if upd then exp_miss p st (so_miss prev) else so_miss prev in
-  let W := spec_total_weight p st in
+  let cs := pair_ctxs p st in
+  let m1 := if upd then exp_miss_f (miss_of cs) (eligible_ids st) (so_miss prev) else so_miss prev in
+  let W := fold_right Z.add 0 (map (weight_of cs) (eligible_ids st)) in
   let pays := upd && negb (W =? 0) in
   let pot := norm2 (fst (gather (so_rewards prev))) in
   negb (so_panic cur) &&
@@ -200,7 +242,7 @@ Definition Pb_end (q : oparams) (prev : sobs) (st : state) (svs : list sval) (h 
   list_eqb post_eqb (so_post cur) (if win then slash_post q (power_reduction st) m1 svs else unchanged_post svs) &&
   list_eqb reward_eqb (so_rewards cur) (if pays then snd (gather (so_rewards prev)) else so_rewards prev) &&
   (if pays
-   then forallb (fun id => fair2_b pot (spec_weight p st id) W (paid_of id (so_paid cur))) (eligible_ids st) &&
+   then forallb (fun id => fair2_b pot (weight_of cs id) W (paid_of id (so_paid cur))) (eligible_ids st) &&
         forallb (fun e => memb (fst e) (eligible_ids st)) (so_paid cur) &&
         coins_le (norm2 (coins_sum (map snd (so_paid cur)))) pot
    else match so_paid cur with [] => true | _ => false end) &&
@@ -242,6 +284,10 @@ Proof. destruct l; [reflexivity | discriminate]. Qed.
 Lemma Pb_end_sound q prev st svs h cur : Pb_end q prev st svs h cur = true -> P_end q prev st svs h cur.
 Proof.
   unfold Pb_end, P_end. intro H.
+  rewrite <- total_weight_ctx in H.
+  rewrite (exp_miss_f_ext (miss_of (pair_ctxs (op_base q) st)) (spec_miss (op_base q) st)) in H
+    by (intro; symmetry; apply spec_miss_ctx).
+  fold (exp_miss (op_base q) st (so_miss prev)) in H.
   repeat (apply andb_true_iff in H as [H ?]).
   rename H into H1, H5 into H2, H4 into H3, H3 into H4, H2 into H5, H1 into H6, H0 into H7.
   split; [apply negb_true_iff; exact H1|].
@@ -252,7 +298,7 @@ Proof.
   - destruct (is_period_last h (p_vote_period (op_base q)) && negb (spec_total_weight (op_base q) st =? 0)).
     + apply andb_true_iff in H5 as [H5 Hc]. apply andb_true_iff in H5 as [Ha Hb].
       rewrite forallb_forall in Ha, Hb. split; [|split; [|exact Hc]].
-      * intros id Hid. apply fair2_b_iff. apply Ha. exact Hid.
+      * intros id Hid. apply fair2_b_iff. rewrite spec_weight_ctx. apply Ha. exact Hid.
       * intros e He. apply memb_iff. apply Hb. exact He.
     + apply paid_nil_b. exact H5.
   - split; [apply zs_eqb_eq; exact H6 | exact H7].
